@@ -4,7 +4,7 @@
    Python code is an explicit lookup whose failure is [Err IndexError]; the three offset-driven main loops run on
    fuel [S (length lines)] and report [Err OutOfFuel] when it runs out. *)
 From Coq Require Import List ZArith String Bool Arith.
-From Verif Require Import Lib.Sexp Model.C12_docstrings Proofs.C12_docstrings.
+From Verif Require Import Lib.Sexp Model.C12_docstrings Proofs.C12_docstrings Model.C12_regex Gen.C12_regexes Proofs.C12_regex.
 Import ListNotations.
 Open Scope list_scope. Open Scope nat_scope.
 
@@ -113,3 +113,50 @@ Theorem C12_sphinx_sections_well_formed :
     wf_sections (List.length lines) secs = true /\ exists ls rest, secs = SText ls false false :: rest.
 Proof. exact sphinx_sections_well_formed. Qed.
 Print Assumptions C12_sphinx_sections_well_formed.
+
+(* ---- regex level (Model/C12_regex.v; the regex ASTs are regenerated from /repo on every run) ----
+   The step-counting matcher [mc] returns the model matcher's result. *)
+Theorem C12_regex_step_counter_faithful :
+  forall ic r s, snd (re_match_c ic r s) = re_match ic r s.
+Proof. exact re_match_c_result. Qed.
+Print Assumptions C12_regex_step_counter_faithful.
+
+(* Criterion A1 (every unbounded quantifier repeats one character matcher) bounds the steps of the model matcher,
+   for every subject, every position and every continuation whose calls cost at most K steps. *)
+Theorem C12_regex_a1_bounded :
+  forall ic (R : Type) r, poly1 r = true ->
+    forall n K p s c (k : kontc R), List.length s <= n ->
+      (forall p' s' c', List.length s' <= List.length s -> fst (k p' s' c') <= K) ->
+      fst (mc ic r p s c k) <= bound r n K.
+Proof. intros ic R r H n K p s c k Hn Hk. apply mc_bound; auto. Qed.
+Print Assumptions C12_regex_a1_bounded.
+
+(* pattern.match: at most [bound r |s| 0] steps; search / sub (one attempt per start position): (|s|+1) times that. *)
+Theorem C12_regex_match_bounded :
+  forall ic r s, poly1 r = true -> fst (re_match_c ic r s) <= bound r (List.length s) 0.
+Proof. exact poly1_match_bounded. Qed.
+Print Assumptions C12_regex_match_bounded.
+
+Theorem C12_regex_scan_bounded :
+  forall ic r, poly1 r = true ->
+    forall n s p, List.length s <= n -> re_scan_c ic r p s <= (List.length s + 1) * bound r n 0.
+Proof. exact poly1_scan_bounded. Qed.
+Print Assumptions C12_regex_scan_bounded.
+
+(* and the bound is a polynomial in the subject length whose degree is the number of unbounded quantifiers *)
+Theorem C12_regex_bound_polynomial :
+  forall r n K, bound r n K <= coef r * (n + 1) ^ stars r * (K + 1).
+Proof. exact bound_polynomial. Qed.
+Print Assumptions C12_regex_bound_polynomial.
+
+(* every regular expression found in the docstring parsers meets the criterion A2 (A1, or a delimited deterministic
+   iteration); all of them meet A1 itself except the Numpy parameter regex, whose list of further names is a
+   delimited iteration *)
+Theorem C12_repo_regexes_meet_criterion : forallb (fun x => regex_ok (snd x)) all_regexes = true.
+Proof. exact repo_regexes_meet_criterion. Qed.
+Print Assumptions C12_repo_regexes_meet_criterion.
+
+Theorem C12_repo_regexes_a1_except :
+  map fst (filter (fun x => negb (regex_a1 (snd x))) all_regexes) = ["numpy._RE_PARAMETER"%string].
+Proof. exact repo_regexes_a1_except. Qed.
+Print Assumptions C12_repo_regexes_a1_except.
